@@ -7,7 +7,7 @@ CONSTANTS
   AllowMixed = TRUE
   NCorrupt = 0
   Subst0 = {48}
-  Lens = {0, 2, 5}
+  Lens = {0, 3}
 INIT Init
 NEXT Next
 CONSTRAINT Emit
